@@ -436,3 +436,87 @@ func verifH_FinishCli() {
 	}
 	verifAssert(verifLiveGoroutines() == 0, "C14.finish-no-goroutine-left")
 }
+
+// S-CREDIT (C05 C06 C13): reading returns exactly the consumed bytes as credit,
+// as a window_update frame for the same stream, on both ends, through the
+// streams the real allocateStream / createStream build (their callbacks).
+func verifH_CreditReturn() {
+	n := verifChoice("payload", 4) // serialized size grows with it; 0 = empty message
+	payload := make([]byte, n)
+	w := verifWire(payload)
+	if verifBool("clientSide") {
+		car := vNewCliCarrier(context.Background())
+		c := vNewCliChannel(car, 0, false)
+		st, err := c.newStream(context.Background(), true, true, "svc/m")
+		verifAssume(err == nil)
+		n0 := len(car.sent)
+		st.acceptServerFrame(&tunnelpb.ServerToClient_ResponseMessage{ResponseMessage: &tunnelpb.MessageData{Size: uint32(len(w)), Data: w}})
+		verifAssert(len(car.sent) == n0, "C06.cli-no-credit-before-the-application-reads")
+		m := &wrapperspb.BytesValue{}
+		verifAssert(st.RecvMsg(m) == nil, "C01.cli-message-readable")
+		verifDrain()
+		nupd := 0
+		for _, f := range car.sent[n0:] {
+			if u, ok := f.Frame.(*tunnelpb.ClientToServer_WindowUpdate); ok {
+				nupd++
+				verifAssert(f.StreamId == st.streamID, "C05+C13.cli-credit-for-the-same-stream")
+				verifAssert(int(u.WindowUpdate) == len(w), "C05+C06.cli-credit-equals-bytes-read")
+			}
+		}
+		if len(w) > 0 {
+			verifCover("cli-credit")
+			verifAssert(nupd == 1, "C05.cli-reading-returns-credit-once")
+		} else {
+			verifAssert(nupd == 0, "C06.cli-no-credit-for-nothing")
+		}
+		fr := st.receiver.(*defaultReceiver[tunnelpb.ServerToClientFrame])
+		verifAssert(fr.currentWindow == initialWindowSize, "C05.cli-whole-window-available-after-reading-everything")
+		// once the RPC is over no more credit is announced
+		st.acceptServerFrame(&tunnelpb.ServerToClient_ResponseMessage{ResponseMessage: &tunnelpb.MessageData{Size: uint32(len(w)), Data: w}})
+		st.acceptServerFrame(&tunnelpb.ServerToClient_CloseStream{CloseStream: &tunnelpb.CloseStream{}})
+		n1 := len(car.sent)
+		_ = st.RecvMsg(&wrapperspb.BytesValue{})
+		verifDrain()
+		for _, f := range car.sent[n1:] {
+			_, isUpd := f.Frame.(*tunnelpb.ClientToServer_WindowUpdate)
+			verifAssert(!isUpd, "C13.cli-no-window-update-after-the-rpc-finished")
+		}
+		st.cancel()
+		verifDrain()
+		return
+	}
+	// server side: through serve/createStream with a handler that reads one request
+	car := &vSrvCarrier{ctx: context.Background(), endErr: io.EOF}
+	hl := &vHandlerLog{readOne: true}
+	svr := &tunnelServer{stream: car, services: vHandlers(hl), tunnelOpts: &tunnelOpts{},
+		isClosing: func() bool { return false }, streams: map[int64]*tunnelServerStream{}, lastSeen: -1}
+	rev0 := verifBool("rev0")
+	rev := tunnelpb.ProtocolRevision_REVISION_ONE
+	if rev0 {
+		rev = tunnelpb.ProtocolRevision_REVISION_ZERO
+	}
+	car.script = []*tunnelpb.ClientToServer{
+		{StreamId: 4, Frame: &tunnelpb.ClientToServer_NewStream{NewStream: &tunnelpb.NewStream{MethodName: "a/s", ProtocolRevision: rev, InitialWindowSize: 100}}},
+		{StreamId: 4, Frame: &tunnelpb.ClientToServer_RequestMessage{RequestMessage: &tunnelpb.MessageData{Size: uint32(len(w)), Data: w}}},
+	}
+	err := svr.serve(nil)
+	verifDrain()
+	verifAssert(err == nil && len(hl.calls) == 1 && hl.readErr == nil, "C01.srv-request-readable")
+	nupd := 0
+	for _, f := range car.sent {
+		if u, ok := f.Frame.(*tunnelpb.ServerToClient_WindowUpdate); ok {
+			nupd++
+			verifAssert(f.StreamId == 4, "C05+C13.srv-credit-for-the-same-stream")
+			verifAssert(int(u.WindowUpdate) == len(w), "C05+C06.srv-credit-equals-bytes-read")
+		}
+	}
+	if rev0 {
+		verifCover("srv-rev0")
+		verifAssert(nupd == 0, "C11+C13.no-window-update-on-a-revision-zero-stream")
+	} else if len(w) > 0 {
+		verifCover("srv-credit")
+		verifAssert(nupd == 1, "C05.srv-reading-returns-credit-once")
+	} else {
+		verifAssert(nupd == 0, "C06.srv-no-credit-for-nothing")
+	}
+}
